@@ -274,7 +274,7 @@ def still_fails(line, cfg):
     impl = index_resp(run_impl([l], "shrink")[0])
     model = index_resp(run_model([l]))
     a, b = impl.get((0, cfg)), model.get((0, cfg))
-    if a is None or b is None or "bad-request" in (a + b) or "MODEL-SPEC-MISMATCH" in b:
+    if a is None or b is None or "bad-request" in (a + b) or "bad-utf8" in (a + b) or "MODEL-SPEC-MISMATCH" in b:
         return None
     return (a, b) if a != b else None
 
